@@ -242,6 +242,7 @@ def check(ctx):            # noqa: F811  (extends the rules above)
     prog = ctx.prog
     fa = ctx.fa(CLEAN)
     fi = fa.fi
+    complete(ctx, prog, fa)
 
     # ---- both storage classes are cleaned by a pass
     ca = ctx.fa(CLEAN_ALL)
@@ -355,3 +356,71 @@ def check(ctx):            # noqa: F811  (extends the rules above)
                         detail = f"column `{alias}` is unpacked into `{nm}` but the result maps '{alias}' to `{mapping.get(alias)}`"
             ctx.ob("C19-D1/TABLE", ok, qa.site(assign), "select aliases, unpacked variables and result keys agree position by position",
                    detail=detail, func=qa.fi.qualname)
+
+
+def complete(ctx, prog, fa):
+    """the liveness half (after a pass usage is within the limit whenever enough removable blobs existed) and the accounting units:
+    exactness of the skip test, of the selection and deletion conditions, MB conversion identical on both sides"""
+    from .. import rules as R
+    q = fa.fi.qualname
+    sel = [c for c in fa.calls(dotted_name="delete.append")]
+    dels = fa.calls(name="delete_blobs")
+    for label, assume, want in (("content", ("not is_network_blob",), "not available >= 0 and not storage_limit_mb == 0"),
+                                ("network", ("is_network_blob",), "not available >= 0")):
+        ign = ["is_network_blob", "not is_network_blob"]
+        for c in sel:
+            R.exact_gate(ctx, "C19-D4/GATE", fa, c, want, f"[{label}] every listed blob is selected while usage is over the limit — under no further condition "
+                         f"({'a zero limit means unlimited' if label == 'content' else 'a zero network limit means: keep nothing'})", assume=assume, ignore=ign,
+                         key=f"C19-D4/GATE|{q}|select-exact|{label}")
+        for d in dels:
+            R.exact_gate(ctx, "C19-D4/GATE", fa, d, "delete", f"[{label}] whatever was selected is deleted", assume=assume,
+                         ignore=ign + ["not available >= 0", "available >= 0", "not storage_limit_mb == 0"], key=f"C19-D4/GATE|{q}|delete-exact|{label}")
+        early = [r for r in fa.stmts(ast.Return) if is_const(r.value, 0)]
+        for r in early:
+            R.only_terms(ctx, "C19-D4/GATE", fa, r, ["available >= 0", "storage_limit_mb == 0", "is_network_blob"],
+                         f"[{label}] a pass is skipped only for `available >= 0` or an unlimited content class", assume=assume, key=f"C19-D4/GATE|{q}|skip-terms|{label}")
+    for d in dels:
+        ok = is_const(kwarg(d, "delete_from_db"), True) and isinstance(d._parent, ast.Await)
+        ctx.ob("C19-D4/DEP", ok, fa.site(d), "deleted blobs are also removed from the database (usage is accounted from the database: a blob left there would be counted, "
+               "and deleted for, again)", func=q, key=f"C19-D4/DEP|{q}|from-db")
+    # usage expression per class
+    us = [x for x in fa.stmts(ast.Assign) if any(dotted(t) == "space_used_mb" for t in x.targets) and isinstance(x.value, (ast.BinOp, ast.Subscript))]
+    vals = sorted(norm_text(x.value) for x in us)
+    ok = vals == ["space_used_mb['content_storage'] + space_used_mb['private_storage']", "space_used_mb['network_storage']"]
+    ctx.ob("C19-D4/DEP", ok, fa.site(), "content usage = content_storage + private_storage; network usage = network_storage", detail="" if ok else str(vals), func=q,
+           key=f"C19-D4/DEP|{q}|usage-expr")
+    # units: both sides of the comparison are whole megabytes by the same conversion
+    aug = [x for x in fa.stmts(ast.AugAssign) if dotted(x.target) == "available"]
+    gm = ctx.fa("lbry.blob.disk_space_manager.DiskSpaceManager.get_space_used_mb")
+    r = R.single_return_value(gm)
+    conv = None
+    if r is not None and isinstance(r.value, ast.DictComp):
+        conv = norm_text(r.value.value).replace(dotted(r.value.generators[0].target.elts[1]) if isinstance(r.value.generators[0].target, ast.Tuple) else "value", "$")
+    ok = conv == "int($ / 1024.0 / 1024.0)"
+    ctx.ob("C19-D4/UNIT", ok, gm.site(), "usage is reported in whole MiB: int(bytes / 1024.0 / 1024.0) per class", detail="" if ok else str(conv), func=gm.fi.qualname,
+           key="C19-D4/UNIT|usage-mb")
+    for x in aug:
+        loop = fa.lexically_inside(x, lambda a: isinstance(a, (ast.For, ast.AsyncFor)))
+        sz = None
+        if loop is not None and isinstance(loop.target, ast.Tuple) and len(loop.target.elts) >= 2:
+            sz = dotted(loop.target.elts[1])
+        ok = sz is not None and isinstance(x.op, ast.Add) and norm_text(x.value).replace(sz, "$") == (conv or "?")
+        ctx.ob("C19-D4/UNIT", ok, fa.site(x), "each selected blob is credited with its length (2nd column of the listing) by the very same conversion", func=q,
+               key=f"C19-D4/UNIT|{q}|credit-mb")
+    ok = r is not None and isinstance(r.value, ast.DictComp) and norm_text(r.value.generators[0].iter) == "space_used_bytes.items()" and \
+        [norm_text(x.value) for x in gm.stmts(ast.Assign) if any(dotted(t) == "space_used_bytes" for t in x.targets)] == \
+        ["self._used_space_bytes if cached else await self.get_space_used_bytes()"] and \
+        [norm_text(x.value) for x in gm.stmts(ast.Assign) if any(dotted(t) == "cached" for t in x.targets)] == ["cached and self._used_space_bytes is not None"]
+    ctx.ob("C19-D4/DEP", ok, gm.site(), "the cached figures are used only when asked for and present", func=gm.fi.qualname)
+    # the listing: class selected by is_network_blob alone
+    gs = ctx.fa("lbry.extras.daemon.storage.SQLiteStorage.get_stored_blobs")
+    gq = gs.fi.qualname
+    for rr in gs.stmts(ast.Return):
+        txt = gs.expanded_text(rr.value)
+        net = "stream_blob.stream_hash is null" in txt
+        R.exact_gate(ctx, "C19-D4/GATE", gs, rr, "is_network_blob" if net else "not is_network_blob",
+                     f"the {'network (no stream_blob row)' if net else 'content'} listing is returned exactly for is_network_blob={net}", key=f"C19-D4/GATE|{gq}|class|{net}")
+        if not net:
+            ok = norm_text(rr.value) in ("content_blobs + sd_blobs", "sd_blobs + content_blobs")
+            ctx.ob("C19-D4/DEP", ok, gs.site(rr), "the content listing is content blobs and sd blobs together", func=gq)
+    ctx.floor("C19-D4/GATE", "returns of get_stored_blobs", len(gs.stmts(ast.Return)), 2, site=gs.site(), func=gq)
